@@ -154,7 +154,7 @@ pub fn check_with(ctx_kf: &crate::refimpl::treebuilder::Switches, tc: &TreeCase,
     Ok(())
 }
 
-const CONTENT_TOKENS: &[&str] = &["charset", "ChArSeT", "x", " ", "\t", "\x0C", "\n", "\r", "=", "\"", "'", ";", "é"];
+const CONTENT_TOKENS: &[&str] = &["charset", "ChArSeT", "x", " ", "\t", "\x0C", "\n", "\r", "=", "\"", "'", ";", "é", "c", "chars"];
 
 fn content_string(mut k: u64, n: usize) -> String {
     let mut s = String::new();
@@ -196,7 +196,7 @@ pub fn decode(s: &mut Src) -> TreeCase {
             // a random content string over a wider alphabet than part (1): other spellings of the
             // keyword, and characters whose Unicode case mappings change their UTF-8 length
             const WIDE: &[&str] = &[
-                "charset", "CHARSET", "Charset", "charſet", "char", "set", "x", "utf-8", " ", "\t", "\x0C", "\n", "\r", "=", "\"", "'", ";", "é", "İ", "\u{212A}",
+                "charset", "CHARSET", "Charset", "charſet", "char", "set", "c", "ch", "charse", "C", "chars", "t", "x", "utf-8", " ", "\t", "\x0C", "\n", "\r", "=", "\"", "'", ";", "é", "İ", "\u{212A}",
                 "\u{212B}", "\u{2126}", "ẞ", "Ⱥ", "Ⱦ", "ı", "ß", "😁", "text/html", ",", "==",
             ];
             let mut content = String::new();
@@ -208,6 +208,10 @@ pub fn decode(s: &mut Src) -> TreeCase {
         } else {
             input.push_str(*s.pick(META_FORMS));
         }
+        if s.chance(40) {
+            // a U+FEFF right where the parser resumes
+            input.push('\u{feff}');
+        }
         if s.chance(60) {
             input.push_str(&tc.input);
         }
@@ -218,6 +222,7 @@ pub fn decode(s: &mut Src) -> TreeCase {
     tc.input = input;
     // options that must not matter for the indicators
     tc.cfg.profile = s.chance(60);
+    tc.cfg.discard_bom = s.bool();
     tc.cfg.tok_exact_errors = s.chance(60);
     tc.cfg.tb_exact_errors = s.chance(40);
     let cs = tc.input.chars().count();
@@ -228,7 +233,7 @@ pub fn decode(s: &mut Src) -> TreeCase {
 
 pub fn run(ctx: &Ctx) -> Report {
     let mut rep = Report::new(
-        "Observed: the sequence of TokenizerResult::EncodingIndicator(label) values returned by feed() while parsing into ModelDom, and whether the meta element was already connected to the document (or template contents) when feed() returned. Expected: for each HTML meta element the reference tree builder inserted (inputs on which html5ever's tree equals the reference's; others are C02's and counted as excluded), in order: its charset value if present, else - when http-equiv matches content-type ASCII-case-insensitively and content is present - the result of a char-based transcription of the WHATWG 'extract a character encoding from a meta element' algorithm, if it returns one; nothing otherwise. Resumption: the final tree must equal the tree of the twin document in which charset/http-equiv are renamed (same lengths, same chunk cuts) so that no indicator fires. Search: (1) every content string of <= L grammar tokens over {charset, ChArSeT, x, SPACE, TAB, FF, LF, CR, =, \", ', ;, é} in <meta http-equiv=content-type content=...>; (2) 26 meta/link/base forms placed after 25 context prefixes (head, noscript-in-head, after head, body, table/foster-parented, caption/cell, template, after body, frameset modes, foreign content, raw-text elements, comments) and random content strings over a wider alphabet (other spellings of the keyword, characters whose case mappings change length) x grammar-generated surroundings x fragment contexts x profile / exact_errors on and off x random chunkings. Non-trivial: >=1 meta inserted or 'charset' in the input; distinct by case hash.",
+        "Observed: the sequence of TokenizerResult::EncodingIndicator(label) values returned by feed() while parsing into ModelDom, and whether the meta element was already connected to the document (or template contents) when feed() returned. Expected: for each HTML meta element the reference tree builder inserted (inputs on which html5ever's tree equals the reference's; others are C02's and counted as excluded), in order: its charset value if present, else - when http-equiv matches content-type ASCII-case-insensitively and content is present - the result of a char-based transcription of the WHATWG 'extract a character encoding from a meta element' algorithm, if it returns one; nothing otherwise. Resumption: the final tree must equal the tree of the twin document in which charset/http-equiv are renamed (same lengths, same chunk cuts) so that no indicator fires. Search: (1) every content string of <= L grammar tokens over {charset, ChArSeT, x, SPACE, TAB, FF, LF, CR, =, \", ', ;, é, c, chars} in <meta http-equiv=content-type content=...>; (2) 26 meta/link/base forms placed after 25 context prefixes (head, noscript-in-head, after head, body, table/foster-parented, caption/cell, template, after body, frameset modes, foreign content, raw-text elements, comments) and random content strings over a wider alphabet (other spellings of the keyword, characters whose case mappings change length) x grammar-generated surroundings x fragment contexts x profile / exact_errors on and off x random chunkings. Non-trivial: >=1 meta inserted or 'charset' in the input; distinct by case hash.",
     );
     rep.assume("labels are reported unvalidated (html5ever documents that); an empty charset value is reported as the empty label");
     report_known(ctx, &mut rep, &|v| replay(&ctx.strict_clone(), v));
